@@ -38,6 +38,35 @@ def _sig(rec):
     return "C05 accepted nts=%s%s" % (d["nts"], "".join("+" + k for k in dev))
 
 
+def _judge_dgrams(ctx, recs, cases, who):
+    """monitor: every accepted datagram must satisfy AcceptX(d, il, TRUE); one TLC run reports one
+    record - the records of that signature are set aside and the rest is judged again.
+    Returns the number of accepted datagrams that violate the clause."""
+    left = list(recs)
+    nviol = 0
+    for _ in range(12):
+        pp = ctx.path("nts_left.ndjson")
+        vlib.write_ndjson(pp, left)
+        ok, l, inv, tout = ctx.validate("NtpAcceptTrace", "NtpAcceptTrace_mon.cfg", pp)
+        if ok:
+            break
+        if not l:
+            raise vlib.Inconclusive("NtpAcceptTrace failed without a position:\n" + tout[-1500:])
+        bad = left[l - 1]
+        sig = _sig(bad)
+        same = [x for x in left if x["got"] == "ok" and _sig(x) == sig]
+        nviol += len(same)
+        ctx.violation(sig, "%s reported an offset on the basis of a datagram with nts=%s (%s), deviating fields %s; "
+                           "%d such datagrams accepted%s" % (who, bad["d"]["nts"], bad.get("how", ""), _dev(bad["d"], bad["il"]), len(same),
+                                                             "; association %s, key exchange %s, request on the wire %s" %
+                                                             (bad["assoc"], bad["ke"], bad.get("reqk")) if "assoc" in bad else ""),
+                      {"record": bad, "case": cases[bad["case"]]})
+        left = [x for x in left if not (x["got"] == "ok" and _sig(x) == sig)]
+    else:
+        ctx.notes.append("%s: more than 12 distinct accepted-datagram signatures; the rest is not listed" % who)
+    return nviol
+
+
 def run_nts(ctx):
     q = ctx.quick
     g = ctx.tlc("NtpAcceptMC", "NtpAccept_nts_gen.cfg", workers=1, timeout=600, tag="ntsgen")
@@ -74,28 +103,7 @@ def run_nts(ctx):
     if reactions["panic"]:
         ctx.notes.append("NTS driver: %d datagrams made the client panic (C08's subject; not judged here)" % reactions["panic"])
 
-    # monitor: every accepted datagram must satisfy AcceptX(d, il, TRUE); one TLC run reports one
-    # record - the records of that signature are set aside and the rest is judged again
-    left = list(recs)
-    nviol = 0
-    for _ in range(12):
-        pp = ctx.path("nts_left.ndjson")
-        vlib.write_ndjson(pp, left)
-        ok, l, inv, tout = ctx.validate("NtpAcceptTrace", "NtpAcceptTrace_mon.cfg", pp)
-        if ok:
-            break
-        if not l:
-            raise vlib.Inconclusive("NtpAcceptTrace failed without a position:\n" + tout[-1500:])
-        bad = left[l - 1]
-        sig = _sig(bad)
-        same = [x for x in left if x["got"] == "ok" and _sig(x) == sig]
-        nviol += len(same)
-        ctx.violation(sig, "NTS client reported an offset on the basis of a datagram with nts=%s (%s), deviating fields %s; "
-                           "%d such datagrams accepted" % (bad["d"]["nts"], bad.get("how", ""), _dev(bad["d"], bad["il"]), len(same)),
-                      {"record": bad, "case": cases[bad["case"]]})
-        left = [x for x in left if not (x["got"] == "ok" and _sig(x) == sig)]
-    else:
-        ctx.notes.append("NTS driver: more than 12 distinct accepted-datagram signatures; the rest is not listed")
+    nviol = _judge_dgrams(ctx, recs, cases, "NTS client")
     # vacuity: every kind was delivered, genuine responses were accepted in both modes
     acc = [x for x in recs if x["got"] == "ok" and x["d"]["nts"] == "ok"]
     if nviol == 0 and (len(recs) < len(cases) or not acc or not any(x["il"] for x in acc) or not any(not x["il"] for x in acc) or
@@ -117,9 +125,118 @@ def run_nts(ctx):
     return len(cases), len(recs), reactions
 
 
+KE_FAIL = ["refused", "reset", "tlsfail", "noalpn", "errrec", "nocookies", "truncated"]
+
+
+def _call_sig(r):
+    ke = "failed" if r["ke"] in KE_FAIL else r["ke"]
+    return "C05 offset without acceptable datagram ke=%s" % ke
+
+
+def run_assoc(ctx):
+    """The association dimension (spec/NtpAcceptAssoc.tla): (association state at the start of the poll)
+    x (outcome of the key exchange the poll triggers) x (what then arrives on the NTP socket).
+    TLC checks the specification exhaustively (3 arrivals) and generates the cases; harness/c05nts
+    TestC05Assoc replays each on the real NTS-enabled IPClient against the scripted key-exchange peer
+    (harness/c05nts/kepeer) and the real NTP server behind the proxy.  Monitors: per datagram
+    NtpAcceptTrace (got = ok => AcceptX(d, il, TRUE)), per call NtpAcceptAssocTrace (ret = ok => some
+    datagram delivered during the call satisfies AcceptX(d, il, TRUE)).  Returns (n_cases, n_records)."""
+    q = ctx.quick
+    r = ctx.tlc("NtpAcceptAssocMC", "NtpAcceptAssoc_exh.cfg", workers=4, timeout=300)
+    g = ctx.tlc("NtpAcceptAssocMC", "NtpAcceptAssoc_gen.cfg" if q else "NtpAcceptAssoc_gen3.cfg", workers=1, timeout=300, tag="assocgen")
+    cases = ctx.emitted(g["out"])
+    rng = random.Random(ctx.seed + 5)
+    rng.shuffle(cases)
+    # vacuity on the SPEC side: the generated behaviours exercise the whole product
+    combos = {}
+    for c in cases:
+        combos.setdefault((c["assoc"], c["ke"]), []).append(c)
+    want_combos = {(a, k) for a in ("fresh", "drained") for k in ["ok"] + KE_FAIL} | {("cached", "none")}
+    answers = lambda c: [p[0]["nts"] for p in c["seen"]] + [d["nts"] for d in c["rest"]]
+    per_combo_ok = all({"absent", "wrongKey", "ok"} <= {n for c in cs for n in answers(c)} and any(not answers(c) for c in cs) and
+                       (a == "fresh" or {True, False} == {c["il"] for c in cs}) for (a, k), cs in combos.items())
+    if set(combos) != want_combos or not per_combo_ok:
+        raise vlib.Inconclusive("association case generator incomplete: %s" % {k: len(v) for k, v in combos.items()})
+    nfail = sum(1 for c in cases if c["ke"] in KE_FAIL)
+    nplain = sum(1 for c in cases if c["ke"] in KE_FAIL and "absent" in answers(c))
+    nold = sum(1 for c in cases if c["assoc"] == "drained" and "wrongKey" in answers(c))
+    ctx.notes.append("association dimension (NtpAcceptAssoc.tla, %d distinct states exhaustive): %d generated polls = "
+                     "{fresh, cached, drained} x {no exchange, ok, %s} x responder answers (<= %d of plain genuine / sealed under "
+                     "old keys, then genuine or nothing) x basic/interleaved; %d with a failing key exchange (%d of them followed by a plain "
+                     "genuine response), %d with a drained association answered under the previous keys; per (association, exchange): %s" %
+                     (r["distinct"], len(cases), ", ".join(KE_FAIL), 2 if q else 3, nfail, nplain, nold,
+                      {"%s/%s" % k: len(v) for k, v in sorted(combos.items())}))
+    cp = ctx.path("cases_assoc.ndjson")
+    vlib.write_ndjson(cp, cases)
+    tp, out = ctx.godriver("c05nts", "^TestC05Assoc$", cases=cp, out_name="trace_assoc.ndjson", timeout=900)
+    allrecs = vlib.read_ndjson(tp)
+    dg = [x for x in allrecs if x["ev"] == "dgram"]
+    calls = [x for x in allrecs if x["ev"] == "call"]
+    skips = [x for x in allrecs if x["ev"] == "skip"]
+    per = {}
+    for x in calls:
+        k = "%s/%s" % (x["assoc"], x["ke"])
+        per.setdefault(k, {}).setdefault(x["ret"], 0)
+        per[k][x["ret"]] += 1
+    ctx.log("association driver: %d cases, %d calls, %d datagrams judged, %d cases not set up; calls per association/exchange: %s" %
+            (len(cases), len(calls), len(dg), len(skips), per))
+    nviol = _judge_dgrams(ctx, dg, cases, "NTS client (association driver)")
+    # per call: an offset only if an acceptable datagram was delivered during the call
+    left = list(calls)
+    for _ in range(8):
+        if not left:
+            break
+        pp = ctx.path("assoc_calls.ndjson")
+        vlib.write_ndjson(pp, left)
+        ok, l, inv, tout = ctx.validate("NtpAcceptAssocTrace", "NtpAcceptAssocTrace_mon.cfg", pp)
+        if ok:
+            break
+        if not l:
+            raise vlib.Inconclusive("NtpAcceptAssocTrace failed without a position:\n" + tout[-1500:])
+        bad = left[l - 1]
+        sig = _call_sig(bad)
+        same = [x for x in left if x["ret"] == "ok" and _call_sig(x) == sig]
+        nviol += len(same)
+        ctx.violation(sig, "NTS-enabled client returned a measurement from a call (association %s, key exchange %s, requests on the "
+                           "wire %s) during which no datagram satisfying the acceptance predicate with NTS was delivered (delivered: %s); "
+                           "%d such calls" % (bad["assoc"], bad["ke"], bad["reqs"], [(x["d"]["nts"], x["got"]) for x in bad["ds"]], len(same)),
+                      {"record": bad, "case": cases[bad["case"]]})
+        left = [x for x in left if not (x["ret"] == "ok" and _call_sig(x) == sig)]
+    # vacuity on the driver side (only when nothing was found: a client that is broken in another way
+    # may well be unable to reach an association state)
+    seen = {(x["assoc"], x["ke"]) for x in calls}
+    acc = [x for x in dg if x["got"] == "ok" and x["d"]["nts"] == "ok" and x["phase"] in ("poll", "rest")]
+    if nviol == 0 and (len(skips) > len(cases) // 10 or not want_combos <= seen or
+                       not {"fresh", "drained", "cached"} <= {x["assoc"] for x in acc} or
+                       not any(x["how"] == "wrongKey:old" for x in dg) or
+                       not any(x["d"]["nts"] == "absent" and x["phase"] == "poll" for x in dg)):
+        raise vlib.Inconclusive("association driver coverage incomplete: %d cases not set up (%s), calls %s" %
+                                (len(skips), sorted({x["why"] for x in skips})[:3], per))
+    if nviol == 0:
+        dp, pp = ctx.path("assoc_dgrams.ndjson"), ctx.path("assoc_calls.ndjson")
+        vlib.write_ndjson(dp, dg)
+        vlib.write_ndjson(pp, calls)
+        ok, l, inv, tout = ctx.validate("NtpAcceptTrace", "NtpAcceptTrace_strict.cfg", dp)
+        if not ok:
+            ctx.drift.append("NTS client, association driver (%s): reaction differs from NtpAccept.tla, e.g. %s" % (inv, dg[l - 1] if l else "?"))
+        ok, l, inv, tout = ctx.validate("NtpAcceptAssocTrace", "NtpAcceptAssocTrace_strict.cfg", pp)
+        if not ok:
+            bad = calls[l - 1] if l else None
+            ctx.drift.append("NTS client, association driver (%s): %s, e.g. %s" % (
+                inv, {"SRequest": "requests on the wire differ from NtpAcceptAssoc!Fetch (a request without a cookie, or without NTS fields)",
+                      "SOutcome": "outcome of a call differs from NtpAcceptAssoc (failed exchange without an error, or an exchange "
+                                  "although cookies were cached)"}.get(inv, inv), bad))
+    ctx.cov.setdefault("nts_assoc", {}).update(cases=len(cases), calls=len(calls), datagrams=len(dg), not_set_up=len(skips),
+                                               calls_per_assoc_ke=per, accepted_violating=nviol,
+                                               samples=[x for x in calls if x["ke"] in KE_FAIL][:1] + [x for x in calls if x["ds"]][:1])
+    return len(cases), len(dg) + len(calls)
+
+
 def run(ctx):
     """stand-alone entry for development: `bin/check c05nts_part` (C05 proper calls run_nts)"""
     ctx.tlc("NtpAcceptMC", "NtpAccept_nts.cfg", timeout=600, workers=8)
     n, k, reactions = run_nts(ctx)
+    n2, k2 = run_assoc(ctx)
+    n, k = n + n2, k + k2
     ctx.cov.update(traces_validated_against_impl=n, evaluations=k, distinct_nontrivial=k,
                    rule="see checks/c05nts_part.py", samples=ctx.cov["nts"]["samples"])
